@@ -66,7 +66,10 @@ func (c *Ctx) Fn(key string) *ssa.Function {
 
 // One returns the single site matched in fn, or aborts the rule instance as undecided.
 func (c *Ctx) One(fn *ssa.Function, m Matcher, what string) Site {
-	s := c.P.Sites(fn, m)
+	s := c.P.SitesDirect(fn, m)
+	if len(s) == 0 {
+		s = c.P.SitesT(fn, m) // inside a helper the function transparently enters
+	}
 	if len(s) != 1 {
 		panic(anchorErr{fmt.Sprintf("unresolved anchor: expected exactly one %s in %s, found %d", what, c.P.FuncKey(fn), len(s))})
 	}
@@ -75,7 +78,10 @@ func (c *Ctx) One(fn *ssa.Function, m Matcher, what string) Site {
 
 // Some returns the sites matched in fn (at least one) or aborts the instance as undecided.
 func (c *Ctx) Some(fn *ssa.Function, m Matcher, what string) []Site {
-	s := c.P.Sites(fn, m)
+	s := c.P.SitesDirect(fn, m)
+	if len(s) == 0 {
+		s = c.P.SitesT(fn, m)
+	}
 	if len(s) == 0 {
 		panic(anchorErr{fmt.Sprintf("unresolved anchor: no %s in %s", what, c.P.FuncKey(fn))})
 	}
@@ -207,6 +213,7 @@ func RunProperty(pr Property, progs []*Prog, tier string, known []KnownFinding, 
 						Detail: fmt.Sprintf("checker panic outside a rule instance: %v\n%s", r, debug.Stack()), Config: p.Config})
 				}
 			}()
+			curProg = p
 			pr.Run(c)
 			if extra != nil {
 				extra(c)
